@@ -19,22 +19,22 @@ func main() {
 	reg := map[string]harness.Harness{
 		"C01": harness.External{Property: "C01", Ver: "c01-v1", M: plat.C01Meta(), Quick: 960, Thor: 30000, Bin: "plat.test", TestName: "TestJob", Classify: plat.ClassifyExitC01},
 		"C02": harness.External{Property: "C02", Ver: "c02-v2", M: plat.C02Meta(), Quick: 240, Thor: 12000, Bin: "plat.test", TestName: "TestJob", Classify: plat.ClassifyExit},
-		"C05": c05.H{Child: harness.External{Property: "C05", ChildKey: "C11", Ver: "c05-child", M: plat.C11Meta(), Bin: "plat.test", TestName: "TestJob", Classify: plat.ClassifyExit}},
+		"C05": c05.H{Child: harness.External{Property: "C05", ChildKey: "C11", Ver: "c05-child-v2", M: plat.C11Meta(), Bin: "plat.test", TestName: "TestJob", Classify: plat.ClassifyExit}},
 		"C08": harness.Multi{Property: "C08", Parts: []harness.Harness{
 			harness.External{Property: "C08", Ver: "c08-plat-v1", M: plat.C08Meta(), Quick: 400, Thor: 20000, Bin: "plat.test", TestName: "TestJob", Classify: plat.ClassifyExit},
 			c09.H{Filters: true, Prop: "C08"},
 		}, Weights: []int{1, 5}, Quick: 2400, Thor: 240000},
 		"C09": c09.H{},
 		"C10": c10.H{},
-		"C11": harness.External{Property: "C11", Ver: "c11-v5", M: plat.C11Meta(), Quick: 600, Thor: 20000, Bin: "plat.test", TestName: "TestJob", Classify: plat.ClassifyExit},
+		"C11": harness.External{Property: "C11", Ver: "c11-v6", M: plat.C11Meta(), Quick: 600, Thor: 20000, Bin: "plat.test", TestName: "TestJob", Classify: plat.ClassifyExit},
 		"C12": harness.External{Property: "C12", Ver: "c12-v4", M: plat.C12Meta(), Quick: 1200, Thor: 60000, Bin: "plat.test", TestName: "TestJob", Classify: plat.ClassifyExit},
-		"C14": harness.External{Property: "C14", Ver: "c14-v1", M: plat.C14Meta(), Quick: 400, Thor: 20000, Bin: "plat.test", TestName: "TestJob", Classify: plat.ClassifyExit},
+		"C14": harness.External{Property: "C14", Ver: "c14-v2", M: plat.C14Meta(), Quick: 400, Thor: 20000, Bin: "plat.test", TestName: "TestJob", Classify: plat.ClassifyExit},
 		"C15": c15.H{},
 		"C16": c16.H{},
 		"C17": c17.H{},
 		"C18": harness.Multi{Property: "C18", Parts: []harness.Harness{
 			c18.Ring{},
-			harness.External{Property: "C18", Ver: "c18-plat-v1", M: plat.C18Meta(), Quick: 300, Thor: 15000, Bin: "plat.test", TestName: "TestJob", Classify: plat.ClassifyExit},
+			harness.External{Property: "C18", Ver: "c18-plat-v2", M: plat.C18Meta(), Quick: 300, Thor: 15000, Bin: "plat.test", TestName: "TestJob", Classify: plat.ClassifyExit},
 		}, Weights: []int{4, 1}, Quick: 1800, Thor: 120000},
 		"C19": harness.Multi{Property: "C19", Parts: []harness.Harness{c19.Ring{}, c19.Handshake{}}, Weights: []int{2, 1}, Quick: 18000, Thor: 500000},
 		"C20": c20.H{},
